@@ -38,7 +38,28 @@ def run_partial(case):
     obs = Obs()
     payload = rx.pl(case["payload"])
     accept = case["accept"]
-    ws, fs = make_ws(accept=accept)
+    kw = {}
+    disp = case.get("dispatcher")
+    if disp:
+        # the same send path as WebSocketApp uses: writes go through a dispatcher object
+        from websocket import _dispatcher as D
+
+        if disp == "wrapped":
+            class _Rel:  # rel's documented buffwrite contract: keeps writing until everything is out
+                def signal(self, *a):
+                    pass
+
+                abort = None
+
+                def buffwrite(self, sock, data, send_fn, on_err):
+                    while data:
+                        n = send_fn(sock, data)
+                        data = data[n:]
+
+            kw["dispatcher"] = D.WrappedDispatcher(None, None, _Rel(), None)
+        else:
+            kw["dispatcher"] = (D.SSLDispatcher if disp == "ssl" else D.Dispatcher)(None, 10)
+    ws, fs = make_ws(accept=accept, **kw)
     fs.budget = 50 + 4 * (len(payload) + 20)
     ws.set_mask_key(lambda n: b"\x5a\xa5\x3c\xc3")
     op = case.get("op", 2)
@@ -60,8 +81,8 @@ def run_partial(case):
 
 
 def _cls_partial(obs, case, payload, nwrites):
-    obs.cls = ("partial", f"len:{'<=12' if len(payload) <= 12 else '<=4k' if len(payload) <= 4096 else '>4k'}", f"writes:{min(nwrites, 8)}")
-    obs.nt = ("partial", len(payload), tuple(case["accept"][:64]), case.get("op", 2)) if nwrites >= 2 else None
+    obs.cls = ("partial", f"len:{'<=12' if len(payload) <= 12 else '<=4k' if len(payload) <= 4096 else '>4k'}", f"writes:{min(nwrites, 8)}", f"dispatcher:{case.get('dispatcher')}")
+    obs.nt = ("partial", len(payload), tuple(case["accept"][:64]), case.get("op", 2), case.get("dispatcher")) if nwrites >= 2 else None
     return obs
 
 
@@ -103,7 +124,7 @@ def run_threads(case):
     chunks = rx.split_at(wire_in, case.get("cuts", [])) if wire_in else []
     timeline = [[0.05 * (i + 1), ["data", c]] for i, c in enumerate(chunks)]
     timeline.append([0.05 * (len(chunks) + 2) + case.get("eof_delay", 1.0), ["eof"]])
-    spec = {"timeline": timeline, "default_pong": 0.01}
+    spec = {"timeline": timeline, "default_pong": None}  # the peer does not answer client pings: its stream is exactly `stream`
     sc = simpeers.Scenario(sched, net, [spec])
     senders = case.get("senders", [])
     nrecv = case.get("receivers", 0)
@@ -112,7 +133,9 @@ def run_threads(case):
 
     def sender(i, msgs, ws):
         for m in msgs:
-            call, arg, exp = build_msg(m)
+            if len(m) > 3 and m[3]:
+                sched.block(None, m[3], "sender-delay")  # sends coincide with arrivals from the peer
+            call, arg, exp = build_msg(m[:3])
             try:
                 ret = getattr(ws, call)(arg)
                 results["sent"][i].append((exp, ret))
@@ -263,7 +286,7 @@ def thread_cases(draw):
         snd = []
         for i in range(ns):
             ms = draw(st.lists(msg, min_size=1, max_size=3))
-            snd.append([[m[0], f"T{i}-{k}", m[2]] for k, m in enumerate(ms)])
+            snd.append([[m[0], f"T{i}-{k}", m[2], draw(st.sampled_from([0, 0, 0.05, 0.1, 0.15, 0.2, 0.25]))] for k, m in enumerate(ms)])
         c["senders"] = snd
         if draw(st.integers(0, 3)):
             big = any(m[2] > 2000 for ms in snd for m in ms)
@@ -298,7 +321,8 @@ def partial_cases(draw):
     n = draw(st.sampled_from([0, 1, 5, 126, 1000, 4096, 16384, 65536, 100000]))
     payload = {"rep": draw(st.binary(min_size=1, max_size=5)), "n": n}
     accept = draw(st.lists(st.one_of(st.integers(1, 10), st.sampled_from([1, 2, 100, 1460, 4096, 16384, 65536])), min_size=1, max_size=40))
-    return {"mode": "partial", "payload": payload, "accept": accept, "op": draw(st.sampled_from([1, 2, 2]))}
+    return {"mode": "partial", "payload": payload, "accept": accept, "op": draw(st.sampled_from([1, 2, 2])),
+            "dispatcher": draw(st.sampled_from([None, None, "plain", "ssl", "wrapped"]))}
 
 
 FIXED = [
@@ -309,6 +333,9 @@ FIXED = [
     {"mode": "frame-receivers", "receivers": 2, "recv_api": "recv_frame", "stream": [{"fin": 1, "op": 2, "p": b"M0|" + b"q" * 200}, {"fin": 1, "op": 1, "p": b"M1|x"}, {"fin": 1, "op": 2, "p": b"M2|yy"}], "cuts": [1, 5, 100]},
     {"mode": "mixed", "senders": [[["text", "T0-0", 130]], [["binary", "T1-0", 2000]]], "receivers": 2, "recv_api": "recv",
      "stream": [{"fin": 1, "op": 1, "p": b"M0|hello"}, {"fin": 1, "op": 9, "p": b"p0"}, {"fin": 1, "op": 2, "p": b"M1|" + b"k" * 50}], "cuts": [4], "accept": [5, 50]},
+    # a ping arrives at the very instant a sender is in the middle of a many-write frame: the automatic pong must not cut into it
+    {"mode": "mixed", "senders": [[["binary", "T0-0", 300, 0.05]], [["text", "T1-0", 40, 0.05]]], "receivers": 1, "recv_api": "recv",
+     "stream": [{"fin": 1, "op": 9, "p": b"now"}, {"fin": 1, "op": 1, "p": b"M0|x"}], "cuts": [], "accept": [3, 7, 2]},
 ]
 
 
@@ -342,8 +369,8 @@ def run_job(job, coll):
         for n in range(0, 6):  # frame = 6 header bytes + n payload bytes <= 12 (quick+thorough)
             payload = bytes(range(65, 65 + n))
             flen = 6 + n
-            for parts in compositions(flen):
-                coll.check({"mode": "partial", "payload": payload, "accept": parts, "op": 2}, run_case)
+            for ci, parts in enumerate(compositions(flen)):
+                coll.check({"mode": "partial", "payload": payload, "accept": parts, "op": 2, "dispatcher": (None, "plain", "ssl", "wrapped")[(ci + n) % 4]}, run_case)
         coll.exhaustive["(A) all short-write compositions for frames of 6..11 bytes"] = True
     elif k == "hyp-t":
         hyp_run(coll, thread_cases(), run_case, job["seed"], job["n"])
